@@ -89,6 +89,7 @@ def _raise_stack():
             pass
 
 def _run_driver(lines, timeout):
+    common.ensure_driver("miniald")
     p = subprocess.run([common.lean_driver(), "miniald"], input="\n".join(lines) + "\n",
                        capture_output=True, text=True, timeout=timeout, preexec_fn=_raise_stack)
     outs = p.stdout.split("\n")
